@@ -577,6 +577,22 @@ func cdecOp(c *Ctx, op string) {
 		v = callClient(proto, kind, sc, nil, [][]byte{{}}, connect.WithReadMaxBytes(max))
 		return showView(kind, v)
 	})
+	// C03 at the protocol level: the same response delivered differently by the transport - in
+	// small reads, end of body reported together with the last bytes or separately, HTTP trailers
+	// only available once the end of the body was reported (as net/http does) - gives the same view
+	if !strings.HasPrefix(ans, "PANIC") {
+		for _, shape := range []transportShape{{chunk: 0, eofWithData: true}, {chunk: 3, eofWithData: false}, {chunk: 1, eofWithData: true}} {
+			shape := shape
+			alt := safely(func() string {
+				sc := &shapedClient{status: r.status, header: header, trailer: trailer, body: body, shape: shape}
+				return showView(kind, callClient(proto, kind, sc, nil, [][]byte{{}}, connect.WithReadMaxBytes(max)))
+			})
+			if alt != ans {
+				c.Fail("seg-transport-shape", op, fmt.Sprintf("reads of %d bytes, EOF with data=%v, trailers at EOF: %s  |  one piece, trailers up front: %s", shape.chunk, shape.eofWithData, alt, ans), "the client's view of one and the same response depends on how the transport delivers it")
+				break
+			}
+		}
+	}
 	// C09: nothing larger than the read limit reaches the application
 	if max > 0 {
 		for _, m := range v.msgs {
@@ -670,6 +686,76 @@ func cdecOp(c *Ctx, op string) {
 	}
 	c.Count("cdec:" + proto + "/" + kind)
 	c.Emit(op, ans, true)
+}
+
+// shapedClient answers with a fixed response whose body is delivered in reads of at most
+// `chunk` bytes (0 = everything at once), reports the end of the body with the last bytes or
+// separately, and - like net/http - fills in Response.Trailer only when it reports that end.
+type transportShape struct {
+	chunk       int
+	eofWithData bool
+}
+
+type shapedClient struct {
+	status  int
+	header  http.Header
+	trailer http.Header
+	body    []byte
+	shape   transportShape
+}
+
+type shapedBody struct {
+	data    []byte
+	shape   transportShape
+	res     *http.Response
+	trailer http.Header
+	done    bool
+}
+
+func (b *shapedBody) finish() {
+	if !b.done {
+		b.done = true
+		for k, v := range b.trailer {
+			b.res.Trailer[k] = append([]string(nil), v...)
+		}
+	}
+}
+
+func (b *shapedBody) Read(p []byte) (int, error) {
+	if len(b.data) == 0 {
+		b.finish()
+		return 0, io.EOF
+	}
+	n := len(p)
+	if b.shape.chunk > 0 && n > b.shape.chunk {
+		n = b.shape.chunk
+	}
+	n = copy(p[:n], b.data)
+	b.data = b.data[n:]
+	if len(b.data) == 0 && b.shape.eofWithData {
+		b.finish()
+		return n, io.EOF
+	}
+	return n, nil
+}
+func (b *shapedBody) Close() error { return nil }
+
+func (s *shapedClient) Do(req *http.Request) (*http.Response, error) {
+	go func() { _, _ = io.Copy(io.Discard, req.Body); _ = req.Body.Close() }()
+	h := s.header.Clone()
+	if h == nil {
+		h = http.Header{}
+	}
+	res := &http.Response{
+		StatusCode: s.status, Status: strconv.Itoa(s.status) + " " + http.StatusText(s.status),
+		Proto: "HTTP/2.0", ProtoMajor: 2, Header: h, Trailer: http.Header{}, Request: req,
+	}
+	// net/http announces the trailer keys up front (with nil values) and fills them in at EOF
+	for k := range s.trailer {
+		res.Trailer[k] = nil
+	}
+	res.Body = &shapedBody{data: append([]byte(nil), s.body...), shape: s.shape, res: res, trailer: s.trailer}
+	return res, nil
 }
 
 // the HTTP-status → code tables of the Connect and gRPC protocol documents
